@@ -106,6 +106,18 @@ func (h *hist) do(t int, c *call) core.Ev {
 	return res
 }
 
+// doTimed = do, but gives up after the watchdog time (the call stays behind on its goroutine): false = it did not return.
+func (h *hist) doTimed(t int, c *call) bool {
+	done := make(chan struct{})
+	go func() { defer close(done); h.do(t, c) }()
+	select {
+	case <-done:
+		return true
+	case <-time.After(watchdog):
+		return false
+	}
+}
+
 func (h *hist) merged() []core.Ev {
 	var all []event
 	for _, l := range h.logs {
@@ -686,8 +698,8 @@ func forcedHistory(rng *rand.Rand, id int) (lines []core.Ev, finished bool) {
 				}
 			}
 		}
-		if c.prepare() {
-			h.do(a.t, c)
+		if finished && c.prepare() && !h.doTimed(a.t, c) {
+			finished = false // the call never returned (it waits for something the parked iteration holds)
 		}
 	}
 	if finished {
@@ -755,7 +767,7 @@ func forcedHistory(rng *rand.Rand, id int) (lines []core.Ev, finished bool) {
 	// 5. what the root shows in the end
 	if finished {
 		actors[1].ncal++
-		h.do(1, &call{op: "Iterate", v: 1, k: []byte{}, dir: "fwd", view: w.views[1]})
+		finished = h.doTimed(1, &call{op: "Iterate", v: 1, k: []byte{}, dir: "fwd", view: w.views[1]})
 	}
 	lines = append(lines, core.Ev{"op": "reset", "cfg": core.Ev{"wrap": w.wrap}, "kind": "forced", "id": id, "threads": 6, "procs": 16})
 	lines = append(lines, h.merged()...)
